@@ -9,6 +9,8 @@ import DimModel.Lib.Init
 import DimModel.Lib.Reshape
 import DimModel.Lib.Operation
 import DimModel.Lib.Join
+import DimModel.Lib.Transform
+import DimModel.Lib.Missing
 open Lean
 namespace DimModel.Driver
 open DimModel.Codec
@@ -36,6 +38,57 @@ def applyStep (a : DimArray Cell) (st : Json) : P (Except Err (DimArray Cell)) :
     pure (Lib.reindexAxis a (← dimKey (← fld st "axis")) (← listOf label (← fld st "labels")) (← kind (← fld st "newkind"))
       Cell.nan .f false none)
   | f => throw s!"unknown step {f}"
+
+def axisArg (j : Json) : P Lib.AxisArg := do
+  if j.isNull then pure .none else
+  let a ← arr j
+  match a.toList with
+  | [t, v] =>
+    match (← str t) with
+    | "many" => do pure (.many (← listOf dimKey v))
+    | _ => do pure (.one (← dimKey j))
+  | _ => throw "bad axis arg"
+
+def encSum (r : Except Err (Sum Cell (DimArray Cell))) : Json :=
+  match r with
+  | .error e => Json.mkObj [("err", encErr e)]
+  | .ok (.inl c) => Json.mkObj [("ok", Json.mkObj [("scalar", encCell c)])]
+  | .ok (.inr a) => Json.mkObj [("ok", encDimArray a)]
+
+def isNanCell : Cell → Bool
+  | .nan => true
+  | _ => false
+
+/-- along-axis transforms and missing-value handling (C08, C09, C17) -/
+def transformOp (a : DimArray Cell) (req : Json) : P Json := do
+  match (← str (← fld req "fn")) with
+  | "reduce" => do pure (encSum (Lib.reduceAxis Cell.red a (← axisArg (fldD req "axis" Json.null))))
+  | "cum" => do
+    match Lib.cumAxis Cell.scan a (← axisArg (fldD req "axis" Json.null)) with
+    | .error e => pure (Json.mkObj [("err", encErr e)])
+    | .ok (.inl l) => pure (Json.mkObj [("ok", Json.mkObj [("flat", Json.arr (l.map encCell).toArray)])])
+    | .ok (.inr r) => pure (Json.mkObj [("ok", encDimArray r)])
+  | "diff" => do
+    let sch ← match (← str (fldD req "scheme" (Json.str "backward"))) with
+      | "backward" => pure Lib.Scheme.backward | "forward" => pure Lib.Scheme.forward | "centered" => pure Lib.Scheme.centered
+      | s => throw s!"bad scheme {s}"
+    pure (encExcept encDimArray (Lib.diffAxis Cell.sub Cell.nan a (← axisArg (fldD req "axis" Json.null)) sch
+      (← bool (fldD req "keepaxis" (Json.bool false))) (← nat (fldD req "n" (Json.num 1)))))
+  | "arg" => do pure (encSum (Lib.argAxis Cell.arg a (← axisArg (fldD req "axis" Json.null))))
+  | "take_axis" => do
+    let m ← mode (fldD req "indexing" (Json.str "label"))
+    pure (encExcept encDimArray (Lib.takeAxis a (← listOf label (← fld req "indices")) (← dimKey (← fld req "axis")) m
+      (← bool (fldD req "clip" (Json.bool false)))))
+  | "compress_axis" => do
+    pure (encExcept encDimArray (Lib.compressAxis a (← listOf bool (← fld req "mask")) (← dimKey (← fld req "axis"))))
+  | "dropna" => do
+    pure (encExcept encDimArray (Lib.dropna isNanCell a (← dimKey (← fld req "axis")) (← optOf nat (fldD req "minvalid" Json.null))))
+  | "fillna" => do
+    pure (Json.mkObj [("ok", encDimArray (Lib.fillna isNanCell a Cell.fill (← kind (fldD req "fillkind" (Json.str "f")))))])
+  | "setna" => do
+    let hits ← listOf nat (← fld req "hits")
+    pure (Json.mkObj [("ok", encDimArray (Lib.setna (fun j => hits.contains (ravel a.vals.shape j)) Cell.nan a))])
+  | f => throw s!"unknown transform {f}"
 
 /-- handlers: request → answer fields -/
 def handle (op : String) (req : Json) : P (List (String × Json)) := do
@@ -151,6 +204,10 @@ def handle (op : String) (req : Json) : P (List (String × Json)) := do
       -- reading back the same index
       let rb := r.bind (fun x => Lib.take x ui cfg)
       pure [("lib", encExcept encDimArray r), ("readback", encExcept encDimArray rb)]
+  | "transform" => do
+    let as ← arrays req
+    let a ← match as with | a :: _ => pure a | [] => throw "no array"
+    pure [("lib", ← transformOp a req)]
   | "binop" => do
     -- a op b for two DimArrays; or DimArray with a scalar / ndarray operand
     let as ← arrays req
